@@ -136,6 +136,12 @@ func partitionsIn(fns []*ssa.Function) []partition {
 					p.pos = b.Pos()
 					out = append(out, p)
 				}
+			case token.EQL, token.NEQ:
+				// "x/K == c" is the range c*K <= x <= c*K+K-1: two partition points
+				if atoms, lo, hi, ok := quotientRange(b); ok {
+					out = append(out, partition{atoms: atoms, t: lo - 1, pos: b.Pos(), upper: true, truth: true, cmpv: b},
+						partition{atoms: atoms, t: hi, pos: b.Pos(), upper: false, truth: true, cmpv: b})
+				}
 			}
 		})
 	}
@@ -608,4 +614,29 @@ func altForms(v ssa.Value, depth int) []linform {
 		}
 	}
 	return []linform{linearB(v, 0)}
+}
+
+// quotientRange recognises "x/K == c" (or !=) with positive constants K and c over a single
+// integer atom x with coefficient 1: the values of x for which the quotient equals c are exactly
+// c*K .. c*K+K-1 (Go's division truncates toward zero, so this holds for c >= 1).
+func quotientRange(b *ssa.BinOp) (atoms map[string]int, lo, hi int64, ok bool) {
+	for _, pr := range [][2]ssa.Value{{b.X, b.Y}, {b.Y, b.X}} {
+		q, isQ := pr[0].(*ssa.BinOp)
+		c, isC := pr[1].(*ssa.Const)
+		if !isQ || q.Op != token.QUO || !isC || c.Value == nil || c.Value.Kind() != constant.Int {
+			continue
+		}
+		k, isK := q.Y.(*ssa.Const)
+		if !isK || k.Value == nil || k.Value.Kind() != constant.Int || constInt64(k) <= 0 || constInt64(c) < 1 {
+			continue
+		}
+		lf := linearB(q.X, 0)
+		nz := nonZero(lf.atoms)
+		if !lf.ok || len(nz) != 1 || lf.atoms[nz[0]] != 1 || lf.k != 0 {
+			continue
+		}
+		lo = constInt64(c) * constInt64(k)
+		return map[string]int{nz[0]: 1}, lo, lo + constInt64(k) - 1, true
+	}
+	return nil, 0, 0, false
 }
